@@ -62,7 +62,7 @@ class RunResult(object):
 class Watched(object):
     """Records how (and how often) a Deferred handed to the application fires."""
 
-    __slots__ = ("name", "fires", "ok", "value", "err", "t", "seq", "failure", "d", "extra")
+    # (no __slots__: scenarios attach their own bookkeeping)
 
     def __init__(self, name):
         self.name = name
